@@ -22,18 +22,26 @@ type SolveResult struct {
 }
 
 type solverSpec struct {
-	name string
-	bin  string
-	args func(timeoutS int) []string
-	cvc5 bool
+	name  string
+	bin   string
+	args  func(timeoutS int) []string
+	cvc5  bool
+	delay time.Duration // staggered start: cheap configurations first
 }
 
 var solverSpecs = []solverSpec{
-	{"z3-new-5.1.0", "z3-new", func(t int) []string { return []string{"-smt2", "-T:" + itoa(t)} }, false},
-	{"z3-4.8.12", "z3", func(t int) []string { return []string{"-smt2", "-T:" + itoa(t)} }, false},
+	// E-matching only (no MBQI): decides most quantified obligations at once; `unknown` is inconclusive
+	{"z3-new-5.1.0/ematch", "z3-new", func(t int) []string {
+		return []string{"-smt2", "-T:" + itoa(t), "smt.mbqi=false", "smt.auto_config=false"}
+	}, false, 0},
 	{"cvc5-1.0.3", "cvc5", func(t int) []string {
 		return []string{"--lang=smt2", "--incremental", "--tlimit=" + itoa(t*1000)}
-	}, true},
+	}, true, 0},
+	{"z3-new-5.1.0", "z3-new", func(t int) []string { return []string{"-smt2", "-T:" + itoa(t)} }, false, 700 * time.Millisecond},
+	{"z3-4.8.12/ematch", "z3", func(t int) []string {
+		return []string{"-smt2", "-T:" + itoa(t), "smt.mbqi=false", "smt.auto_config=false"}
+	}, false, 1500 * time.Millisecond},
+	{"z3-4.8.12", "z3", func(t int) []string { return []string{"-smt2", "-T:" + itoa(t)} }, false, 1500 * time.Millisecond},
 }
 
 func itoa(n int) string {
@@ -101,8 +109,16 @@ func Solve(mkScript func(forCVC5 bool) string, timeoutS int, scratch string, tag
 		script := scripts[sp.cvc5]
 		n++
 		go func(sp solverSpec, script string) {
+			if sp.delay > 0 {
+				select {
+				case <-ctx.Done():
+					ch <- one{SolveResult{Status: "cancelled", Solver: sp.name}}
+					return
+				case <-time.After(sp.delay):
+				}
+			}
 			start := time.Now()
-			fn := filepath.Join(scratch, tag+"."+sp.name+".smt2")
+			fn := filepath.Join(scratch, tag+"."+strings.ReplaceAll(sp.name, "/", "-")+".smt2")
 			_ = os.WriteFile(fn, []byte(script), 0o644)
 			cctx, ccancel := context.WithTimeout(ctx, time.Duration(timeoutS+2)*time.Second)
 			defer ccancel()
@@ -131,6 +147,9 @@ func Solve(mkScript func(forCVC5 bool) string, timeoutS int, scratch string, tag
 	var best *SolveResult
 	for i := 0; i < n; i++ {
 		r := (<-ch).res
+		if r.Status == "cancelled" {
+			continue
+		}
 		all[r.Solver] = r.Status
 		if r.Status == "unsat" || r.Status == "sat" {
 			rr := r
